@@ -6,3 +6,11 @@ def run(ctx, rep):
     mod = ctx.mod
     driver.rule_simple_table(mod, rep, {"gstrs", "gstrf_init", "gstrf", "finalize", "create_AA", "A-store", "B-store"})
     lock.rule_L3_new_supernode_atomic(mod, rep)
+    from ..rules import misc, sync
+    misc.rule_dense_stride(mod, rep)
+    sync.rule_O1_release_after_pivot(mod, rep)
+    sync.rule_O3_busy_skip(mod, rep)
+    sync.rule_O4_spin_before_busy_update(mod, rep)
+    sync.rule_O4c_fresh_rep(mod, rep)
+    sync.rule_O9_supernode_extension(mod, rep)
+    sync.rule_O9b_relaxed_marking(mod, rep)
